@@ -145,10 +145,6 @@ type job struct {
 
 func main() {
 	c := vlib.New("C03", "model_checking")
-	if c.Replay != "" {
-		fmt.Println("replay: the schedule deviations and the packet sequence are in the replay file; re-run ./check C03")
-		os.Exit(0)
-	}
 	genesis := vrt.Epoch.Add(2 * time.Second).Unix()
 	var js []job
 	if c.Quick() {
@@ -209,6 +205,52 @@ func main() {
 			Run: func(devs []vrt.Dev) *explore.Exec { return runR(devs, false) }, Labeled: func(devs []vrt.Dev) *explore.Exec { return runR(devs, true) }})
 	}
 	c.Count("packet_sequences", int64(total))
+	// c03-transition: the threshold that counts is the live group's. V (n=5) learns a resharing that raises the threshold
+	// from 3 to 4 at round 2; it cannot produce round 1 itself (the others stay silent) and gets it by sync at its tick
+	// of round 2, which is when it switches to the new group. An old-share partial for round 2 reaches V before the
+	// switch (while its clock is in round 1); after the switch, kNew new-share partials for round 2 arrive.
+	// With kNew+1 < 4 contributors no beacon of round 2 may appear; with 4 it must be a valid one.
+	for _, scID := range []string{crypto.DefaultSchemeID, crypto.UnchainedSchemeID} {
+		k := bnet.NewKeys(scID, 5, 3, 3*time.Second, genesis)
+		nk := k.Reshare(5, 4, []int{0, 1, 2, 3, 4})
+		chain := k.RefChain(2)
+		var seqs [][]bnet.Item
+		oldAt := func(m int, at uint64) bnet.Item {
+			return bnet.Item{Label: fmt.Sprintf("old-share-partial(m%d,r2)@round%d", m, at), From: m, P: k.Partial(m, 2, chain[1].Signature), AtRound: at}
+		}
+		newLate := func(m int) bnet.Item {
+			return bnet.Item{Label: fmt.Sprintf("new-share-partial(m%d,r2)-after-head-1", m), From: m, P: nk.Partial(m, 2, chain[1].Signature), AfterHead: 1}
+		}
+		// the old-share partial arrives during round 1, or at the very moment of V's tick of round 2 (the scheduler decides
+		// whether before or after V's own partial, the sync and the switch)
+		for _, early := range [][]bnet.Item{nil, {oldAt(1, 1)}, {oldAt(1, 2)}, {oldAt(1, 1), oldAt(2, 2)}} {
+			for kNew := 1; kNew <= 3; kNew++ {
+				sq := append([]bnet.Item{}, early...)
+				for m := 1; m <= kNew; m++ {
+					sq = append(sq, newLate(m))
+				}
+				seqs = append(seqs, sq)
+			}
+		}
+		h := &bnet.VAdv{Keys: k, Backend: "memdb", Seqs: seqs, Rounds: 3, SyncHeight: 1, Transition: nk, TransitionRound: 2}
+		runT := func(devs []vrt.Dev, labels bool) *explore.Exec {
+			r := h.Run(devs, labels)
+			x := h.Judge(r, "c03")
+			if r.Net != nil {
+				r.Net.Close()
+			}
+			return x
+		}
+		b := 1
+		if !c.Quick() {
+			b = 2
+		}
+		jobs = append(jobs, vlib.E1Job{Name: fmt.Sprintf("c03-transition/%s/n=5/t=3->4/seqs=%d", scID, len(seqs)), Bound: b,
+			Run: func(devs []vrt.Dev) *explore.Exec { return runT(devs, false) }, Labeled: func(devs []vrt.Dev) *explore.Exec { return runT(devs, true) }})
+	}
+	if c.Replay != "" {
+		os.Exit(c.ReplayE1(jobs))
+	}
 	c.E1Batch(jobs, time.Until(c.DeadlineIn(100*time.Second, 25*time.Minute)))
 	c.Assume("V is member 0; the other members are scripted (their addresses are used as packet sources); sync is unavailable to V in these runs, so every stored beacon comes from aggregation",
 		"'valid partial' is decided by the harness' reference verifier (digest computed from the scheme's specification, kyber tbls), never by the code under test",
